@@ -64,6 +64,10 @@ type reqSpec struct {
 	Upd      bool      `json:"upd,omitempty"`
 	Val      int       `json:"val,omitempty"`
 	Audit    string    `json:"audit,omitempty"` // "" | "sync"
+	// BreakPrev: before this request, the previous request (if it was a read) is sent once more by its own
+	// caller over a connection that breaks after a few bytes of the reply; nothing of that reply may show up
+	// in this request's reply
+	BreakPrev bool `json:"break_prev,omitempty"`
 }
 
 type httpInput struct {
@@ -432,7 +436,8 @@ type httpSession struct {
 	env   *dbEnv
 	mux   *http.ServeMux
 	whois whoisSpec
-	addr  string // the source address of the request being served
+	addr  string   // the source address of the request being served
+	prev  *reqSpec // the previous request of the session
 }
 
 func newHTTPSession(dir string) (*httpSession, error) {
@@ -454,8 +459,50 @@ func newHTTPSession(dir string) (*httpSession, error) {
 	return hs, nil
 }
 
+// brokenWriter is a connection that accepts a few bytes of the reply and then fails every write.
+type brokenWriter struct {
+	h     http.Header
+	left  int
+	wrote int
+}
+
+func (b *brokenWriter) Header() http.Header { return b.h }
+func (b *brokenWriter) WriteHeader(int)     {}
+func (b *brokenWriter) Write(p []byte) (int, error) {
+	if b.left <= 0 {
+		return 0, errors.New("write: connection reset by peer")
+	}
+	n := min(len(p), b.left)
+	b.left -= n
+	b.wrote += n
+	if n < len(p) {
+		return n, errors.New("write: connection reset by peer")
+	}
+	return n, nil
+}
+
 func (hs *httpSession) do(r reqSpec) httpObs {
 	env := hs.env
+	if r.BreakPrev && hs.prev != nil && (hs.prev.Endpoint == "get" || hs.prev.Endpoint == "info" || hs.prev.Endpoint == "list") && hs.prev.Audit == "" {
+		// the previous read once more, over a connection that breaks mid-reply (not judged: only what it may
+		// leave behind for THIS request matters)
+		p := *hs.prev
+		hs.whois, hs.addr = p.WhoIs, p.Addr
+		req := httptest.NewRequest(p.Method, endpointPath(p.Endpoint), bytes.NewReader(reqBody(p)))
+		if p.CType != "" {
+			req.Header.Set("Content-Type", p.CType)
+		}
+		if p.Hdr != "" {
+			req.Header.Set("Sec-X-Tailscale-No-Browsers", p.Hdr)
+		}
+		req.RemoteAddr = p.Addr
+		func() {
+			defer func() { recover() }()
+			hs.mux.ServeHTTP(&brokenWriter{h: http.Header{}, left: 7}, req)
+		}()
+	}
+	cp := r
+	hs.prev = &cp
 	hs.whois = r.WhoIs
 	hs.addr = r.Addr
 	env.sink.mu.Lock()
@@ -671,6 +718,9 @@ func genReq(r *rand.Rand, last []secDump, g *genState) reqSpec {
 	rq.Val = r.IntN(5)
 	if r.IntN(12) == 0 {
 		rq.Audit = "sync"
+	}
+	if g.prev != nil && (g.prev.Endpoint == "get" || g.prev.Endpoint == "info" || g.prev.Endpoint == "list") && r.IntN(6) == 0 {
+		rq.BreakPrev = true
 	}
 	// the same question again, from somebody else: an answer must not outlive the caller it was given to
 	if g.prev != nil && (g.prev304 && r.IntN(2) == 0 || r.IntN(25) == 0) {
